@@ -25,8 +25,9 @@ def generate(tier, rng):
     cases = S.corpus_cases("C15")
     n = 400 if tier == "quick" else 10000
     for i in range(n):
-        force = {"policy": rng.choice(["sync", "sync", "deferred"]), "resp": "fixed", "conth": rng.choice([0, 1, 1, 2]), "invh": 0,
-                 "filter": "all", "autodisc": 0}
+        # (auto_disconnect only concerns invalid requests: it must not change anything here)
+        force = {"policy": rng.choice(["sync", "sync", "deferred"]), "resp": "fixed", "conth": rng.choice([0, 0, 1, 1, 2]), "invh": 0,
+                 "filter": "all", "autodisc": rng.choice([0, 1])}
         line, o = gen_sim.server_line(rng, force)
         lines = [line, "accept"]
         if o["flavour"] == "ssl":
